@@ -3,7 +3,7 @@
 prop=$1; patch=$2
 cd /repo || exit 2
 [ -n "$(git status --porcelain)" ] && { echo "REFUSING: /repo has uncommitted changes (commit them first)"; exit 4; }
-git apply --check "$patch" 2>/dev/null || { echo "PATCH DOES NOT APPLY: $patch"; git apply --3way "$patch" 2>&1 | tail -2; git checkout -- . ; exit 3; }
+git apply --check "$patch" 2>/dev/null || { echo "PATCH DOES NOT APPLY: $patch"; git reset -q --hard HEAD; exit 3; }
 git apply "$patch"
 cd /verif && ./check "$prop" quick 2>&1 | grep -v "^KNOWN-FINDING" | tail -6
 echo "exit=$?"
